@@ -328,3 +328,158 @@ def c14_search(rng, n):
             if len(fails) >= 2:
                 break
     return fails, st
+
+
+# ---------------------------------------------------------------------------------------------------------------
+# C17: special noise declarations vs their general embedding
+# ---------------------------------------------------------------------------------------------------------------
+
+class AsGeneral(nn.Module):
+    def __init__(self, sde):
+        super().__init__()
+        self.base = sde
+        self.noise_type, self.sde_type = 'general', sde.sde_type
+
+    def f(self, t, y): return self.base.f(t, y)
+
+    def g(self, t, y):
+        g = self.base.g(t, y)
+        if self.base.noise_type == 'diagonal':
+            return torch.diag_embed(g)
+        return g
+
+
+def c17_search(rng, n, tol=1e-12):
+    fails, st = [], dict(evals=0, by_noise={}, worst=0.0)
+    gen_methods = [('euler', 'ito'), ('euler_heun', 'stratonovich'), ('heun', 'stratonovich'), ('midpoint', 'stratonovich'),
+                   ('reversible_heun', 'stratonovich'), ('log_ode', 'stratonovich')]
+    for _ in range(n):
+        method, sde_type = rng.choice(gen_methods)
+        noise = rng.choice(['diagonal', 'scalar', 'additive'])
+        d, m, batch = rng.choice([1, 2, 3]), rng.choice([1, 2, 3]), rng.choice([1, 3])
+        seed = rng.randrange(10 ** 6)
+        sde = RandSDE(noise, sde_type, d, m, seed)
+        g = torch.Generator().manual_seed(seed)
+        y0 = 0.3 * torch.randn(batch, d, generator=g, dtype=torch.float64)
+        dt = rng.choice([0.125, 0.0625, 0.1])
+        ts = [0.0, 0.3, 0.5]
+        p = dict(method=method, batch=batch, m=sde.m, seed=seed)
+        try:
+            with torch.no_grad():
+                a = torchsde.sdeint(sde, y0, ts, bm=make_bm(p, 0.0, 0.5), method=method, dt=dt)
+                b = torchsde.sdeint(AsGeneral(sde), y0, ts, bm=make_bm(p, 0.0, 0.5), method=method, dt=dt)
+            dfc = float((a - b).abs().max())
+            bad = None if dfc <= tol else f'solutions differ by {dfc}'
+        except Exception as e:  # noqa
+            bad, dfc = f'{type(e).__name__}: {e}', 0.0
+        st['evals'] += 1
+        st['by_noise'][noise] = st['by_noise'].get(noise, 0) + 1
+        st['worst'] = max(st['worst'], dfc)
+        if bad:
+            fails.append(dict(kind='c17', method=method, noise=noise, d=d, m=sde.m, batch=batch, seed=seed, dt=dt, why=bad))
+            if len(fails) >= 2:
+                break
+    return fails, st
+
+
+# ---------------------------------------------------------------------------------------------------------------
+# C18: logqp
+# ---------------------------------------------------------------------------------------------------------------
+
+class SliceBM(torchsde.BaseBrownian):
+    """the first `k` channels of another Brownian motion (same noise for the un-augmented run, diagonal case)"""
+
+    def __init__(self, bm, k):
+        self.bm, self.k = bm, k
+
+    def __call__(self, ta, tb=None, return_U=False, return_A=False):
+        out = self.bm(ta, tb, return_U=return_U, return_A=return_A)
+        if isinstance(out, tuple):
+            W, *rest = out
+            return (W[:, :self.k], *[r[:, :self.k] if r.dim() == 2 else r[:, :self.k, :self.k] for r in rest])
+        return out[:, :self.k]
+
+    def __repr__(self): return "SliceBM"
+    dtype = property(lambda s: s.bm.dtype)
+    device = property(lambda s: s.bm.device)
+    shape = property(lambda s: (s.bm.shape[0], s.k))
+    levy_area_approximation = property(lambda s: s.bm.levy_area_approximation)
+
+
+class ConstU(nn.Module):
+    """f - h = g c for a constant vector c"""
+
+    def __init__(self, sde, c):
+        super().__init__()
+        self.base, self.c = sde, c
+        self.noise_type, self.sde_type = sde.noise_type, sde.sde_type
+
+    def f(self, t, y): return self.base.f(t, y)
+    def g(self, t, y): return self.base.g(t, y)
+
+    def h(self, t, y):
+        g = self.base.g(t, y)
+        gc = g * self.c if self.noise_type == 'diagonal' else torch.bmm(g, self.c.expand(y.shape[0], -1).unsqueeze(-1)).squeeze(-1)
+        return self.base.f(t, y) - gc
+
+
+LOGQP_METHODS = [('euler', 'ito'), ('milstein', 'ito'), ('srk', 'ito'), ('midpoint', 'stratonovich'), ('heun', 'stratonovich'),
+                 ('euler_heun', 'stratonovich'), ('milstein', 'stratonovich'), ('reversible_heun', 'stratonovich')]
+
+
+def c18_search(rng, n):
+    fails, st = [], dict(evals=0, const_checks=0, worst_const=0.0)
+    for _ in range(n):
+        method, sde_type = rng.choice(LOGQP_METHODS)
+        noises = ['diagonal', 'scalar', 'additive'] if method in ('milstein', 'srk') else NOISE
+        noise = rng.choice(noises)
+        d, m, batch = rng.choice([1, 2, 3]), rng.choice([1, 2]), rng.choice([1, 3])
+        if noise in ('general', 'additive') and m > d:
+            m = d  # full column rank
+        seed = rng.randrange(10 ** 6)
+        sde = RandSDE(noise, sde_type, d, m, seed)
+        mm = sde.m
+        g0 = torch.Generator().manual_seed(seed)
+        y0 = 0.3 * torch.randn(batch, d, generator=g0, dtype=torch.float64)
+        dt = rng.choice([0.125, 0.0625])
+        ts = [0.0, 0.25, 0.375, 0.75]
+        levy = LEVY.get(method, 'none')
+        chan = mm + 1 if noise == 'diagonal' else mm
+        bad = None
+        try:
+            with torch.no_grad():
+                bm = BrownianInterval(t0=0.0, t1=0.75, size=(batch, chan), dtype=torch.float64, entropy=seed,
+                                      levy_area_approximation=levy)
+                ys, lr = torchsde.sdeint(sde, y0, ts, bm=bm, method=method, dt=dt, logqp=True)
+                plain_bm = SliceBM(bm, mm) if noise == 'diagonal' else bm
+                ys2 = torchsde.sdeint(sde, y0, ts, bm=plain_bm, method=method, dt=dt)
+                if tuple(lr.shape) != (len(ts) - 1, batch):
+                    bad = f'log-ratio shape {tuple(lr.shape)}'
+                elif not torch.equal(ys, ys2):
+                    bad = f'state trajectory disturbed by logqp: max diff {float((ys - ys2).abs().max())}'
+                elif float(lr.min()) < 0:
+                    bad = f'negative log-ratio increment {float(lr.min())}'
+                else:
+                    _, lr2 = torchsde.sdeint(sde, y0, [ts[0], ts[-1]], bm=bm, method=method, dt=dt, logqp=True)
+                    if float((lr.sum(0) - lr2[0]).abs().max()) > 1e-10:
+                        bad = f'increments do not add up: {float((lr.sum(0) - lr2[0]).abs().max())}'
+                # exact case
+                if bad is None:
+                    c = torch.randn(mm, generator=g0, dtype=torch.float64)
+                    cs = ConstU(sde, c)
+                    _, lr3 = torchsde.sdeint(cs, y0, ts, bm=bm, method=method, dt=dt, logqp=True)
+                    exp = 0.5 * float((c ** 2).sum()) * torch.tensor([ts[i + 1] - ts[i] for i in range(len(ts) - 1)],
+                                                                       dtype=torch.float64).unsqueeze(1).expand(-1, batch)
+                    dfc = float((lr3 - exp).abs().max())
+                    st['const_checks'] += 1
+                    st['worst_const'] = max(st['worst_const'], dfc)
+                    if dfc > 1e-9:
+                        bad = f'constant-c case: increment differs from 0.5|c|^2 dt by {dfc}'
+        except Exception as e:  # noqa
+            bad = f'{type(e).__name__}: {e}'
+        st['evals'] += 1
+        if bad:
+            fails.append(dict(kind='c18', method=method, noise=noise, d=d, m=mm, batch=batch, seed=seed, dt=dt, why=bad))
+            if len(fails) >= 2:
+                break
+    return fails, st
